@@ -687,6 +687,7 @@ void sim_srand(unsigned) { if (W.current) W.current->rand_state = W.current->ran
 
 int sim_system(const char *cmd)
 {
+	if (!W.current) { W.unit_system.push_back(cmd); return 0; }   // unit shape: recorded for the caller
 	Instance *i = cur();
 	i->system_calls.push_back(cmd);
 	if (W.on_system) W.on_system(i, cmd);
